@@ -44,6 +44,7 @@ def classify_outcome(run):
     oc = run.outcome
     if oc == 'ok': return 'ok', None
     if oc == 'DEADLOCK': return 'deadlock', None
+    if oc.startswith('Hang:'): return 'hang', None
     m = re.search(r'Simulator (\S+) has performed a sub-step', oc)
     if m: return 'loop', m.group(1)
     m = re.search(r'next step time returned by.*for simulator "([^"]+)"', oc)
